@@ -69,6 +69,7 @@ type caseRun struct {
 	syncOn    bool
 	desc      string
 	ticksSeen int // ticks handled since the handler was (re)started
+	ownCopies int // directed own-copy scenarios after a resharing that moved the node's index
 }
 
 func grpTerm(poly int, ep *Epoch, me int) string {
@@ -177,7 +178,7 @@ func (c *caseRun) do(ev Event) Obs {
 	}
 	if ev.Kind == "transition" {
 		ep := w.cur()
-		model = append(model, fmt.Sprintf("ETransition %d %s", c.r.lastTarget, grpTerm(len(w.Epochs)-1, ep, w.Me)))
+		model = append(model, fmt.Sprintf("ETransition %d %s", c.r.lastTarget, grpTerm(len(w.Epochs)-1, ep, ep.Me)))
 	}
 	ms := append([][]string{model}, alts...)
 	c.steps = append(c.steps, step{ev: ev, obs: o, model: ms, tickingAfter: c.r.ticking, syncOnAfter: c.syncOn})
@@ -239,8 +240,8 @@ func (c *caseRun) term() string {
 		prev := t.bytes[pid]
 		// own partials per epoch
 		for e, ep := range w.Epochs {
-			if w.Me < ep.N {
-				ps := w.Partial(e, w.Me, r, prev)
+			if ep.Me < ep.N {
+				ps := w.Partial(e, ep.Me, r, prev)
 				sid := t.id(ps)
 				addIdx(sid)
 				ownT = append(ownT, fmt.Sprintf("(%d, %d, %s, %s)", e, r, emit.Z(pid), emit.Z(sid)))
@@ -319,7 +320,7 @@ func (c *caseRun) term() string {
 	}
 	ep0 := w.Epochs[0]
 	return fmt.Sprintf("mkNC %s %d %d %d %d %s %s\n    %s\n    %s\n    %s\n    %s\n    %s\n    %s\n    %s",
-		emit.Bool(w.Chained()), w.Period, w.Genesis, w.Catchup, c.r.now0, emit.Z(0), grpTerm(0, ep0, w.Me),
+		emit.Bool(w.Chained()), w.Period, w.Genesis, w.Catchup, c.r.now0, emit.Z(0), grpTerm(0, ep0, ep0.Me),
 		emit.List(idxT), emit.List(vpartT), emit.List(sigT), emit.List(vrecT), emit.List(ownT),
 		emit.List(evs), emit.List(obs))
 }
@@ -401,6 +402,26 @@ func genScenario(c *caseRun, rng *rand.Rand, steps int) {
 	}
 	// reach genesis
 	c.advance(w.Genesis - w.Now())
+	// the round after the stored head is not signed yet (its time has not come): a copy of the
+	// node's OWN partial for it (index of the live epoch -- after a resharing often not the index
+	// the node started with) plus threshold-1 partials of other members must NOT make a beacon
+	ownCopy := func(live int, round uint64) bool {
+		ep := w.Epochs[live]
+		me := ep.Me
+		if me >= ep.N || ep.Thr < 2 {
+			return false
+		}
+		c.do(Event{Kind: "part", From: me, Claim: me, Round: round, Prev: "ref", Ep: live})
+		cnt := 0
+		for j := 0; j < ep.N && cnt < ep.Thr-1; j++ {
+			if j == me || !ep.IsMember(j) {
+				continue
+			}
+			c.do(Event{Kind: "part", From: j, Claim: j, Round: round, Prev: "ref", Ep: live})
+			cnt++
+		}
+		return true
+	}
 	transitioned := false
 	wantTransition := rng.Intn(2) == 0
 	for i := 0; i < steps; i++ {
@@ -422,8 +443,14 @@ func genScenario(c *caseRun, rng *rand.Rand, steps int) {
 			// reshare: new polynomial for the same secret, possibly another size / threshold
 			shapes := [][2]int{{3, 2}, {4, 3}, {5, 3}, {4, 2}, {5, 4}}
 			sh := shapes[rng.Intn(len(shapes))]
-			if sh[0] <= w.Me {
-				sh = [2]int{w.Me + 1, w.Me/2 + 1}
+			// drand assigns indices by the order of the participants' keys: with leavers and joiners
+			// the node often holds ANOTHER index in the new group
+			meNew := w.Me
+			if rng.Intn(2) == 0 {
+				meNew = rng.Intn(sh[0])
+			}
+			if sh[0] <= meNew {
+				sh = [2]int{meNew + 1, meNew/2 + 1}
 				if sh[1] < 2 && sh[0] > 1 {
 					sh[1] = 2
 				}
@@ -434,9 +461,13 @@ func genScenario(c *caseRun, rng *rand.Rand, steps int) {
 				first = head
 			}
 			firstNew := first + 2 + uint64(rng.Intn(2))
-			c.do(Event{Kind: "transition", From: sh[0], Claim: sh[1], Round: firstNew, Vacant: pickVacant(rng, sh[0], w.Me)})
+			c.do(Event{Kind: "transition", From: sh[0], Claim: sh[1], Round: firstNew, Vacant: pickVacant(rng, sh[0], meNew), MeIdx: meNew + 1})
 			transitioned = true
-			if rng.Intn(2) == 0 && !c.syncOn {
+			moved := meNew != w.Epochs[live].Me
+			if moved && c.syncOn {
+				c.do(Event{Kind: "syncmode", Sync: "off"})
+			}
+			if (moved || rng.Intn(2) == 0) && !c.syncOn {
 				// drive the chain across the switch, one partial of the live group at a time: the rounds
 				// before the switch need the OLD threshold, the rounds after it the NEW one (of the new
 				// polynomial), not one partial less
@@ -452,10 +483,19 @@ func genScenario(c *caseRun, rng *rand.Rand, steps int) {
 					}
 					want := w.Head() + 1
 					for j := 0; j < w.Epochs[lv].N && w.Head() < want; j++ {
-						if j == w.Me || !w.Epochs[lv].IsMember(j) {
+						if j == w.Epochs[lv].Me || !w.Epochs[lv].IsMember(j) {
 							continue
 						}
 						c.do(Event{Kind: "part", From: j, Claim: j, Round: want, Prev: "ref", Ep: lv})
+					}
+				}
+				// the new group is live: the own-index guard must follow the node's NEW index
+				if w.Head() >= firstNew && w.Head() == w.CurrentRound() && c.r.ticking {
+					for i, e := range w.Epochs {
+						if e.Group == w.H.VerifLiveGroup() && i > 0 {
+							c.ownCopies++
+							ownCopy(i, w.Head()+1)
+						}
 					}
 				}
 			}
@@ -467,7 +507,7 @@ func genScenario(c *caseRun, rng *rand.Rand, steps int) {
 			// are aggregated when the process resumes, and only then the run loop consumes the stale tick
 			others := 0
 			for j := 0; j < n; j++ {
-				if j != w.Me && w.Epochs[live].IsMember(j) {
+				if j != w.Epochs[live].Me && w.Epochs[live].IsMember(j) {
 					others++
 				}
 			}
@@ -477,7 +517,7 @@ func genScenario(c *caseRun, rng *rand.Rand, steps int) {
 					c.advance(w.Genesis + int64(w.CurrentRound())*w.Period - w.Now())
 					cnt := 0
 					for j := 0; j < n && cnt < w.Epochs[live].Thr; j++ {
-						if j == w.Me || !w.Epochs[live].IsMember(j) {
+						if j == w.Epochs[live].Me || !w.Epochs[live].IsMember(j) {
 							continue
 						}
 						c.do(Event{Kind: "part", From: j, Claim: j, Round: w.Head() + 1, Prev: "ref", Ep: live})
@@ -497,13 +537,16 @@ func genScenario(c *caseRun, rng *rand.Rand, steps int) {
 				continue
 			}
 		}
+		if head == cur && cur >= 1 && c.r.ticking && !c.syncOn && rng.Intn(9) == 0 && ownCopy(live, cur+1) {
+			continue
+		}
 		if head == cur && cur >= 1 && c.r.ticking && rng.Intn(7) == 0 {
 			// fast peers: a threshold of other members already signs the NEXT round (accepted: one round
 			// of tolerance); the node stores it ahead of its clock and the tick of that round then
 			// finds the round already stored (re-sign branch of broadcastNextPartial)
 			cnt := 0
 			for j := 0; j < n && cnt < w.Epochs[live].Thr; j++ {
-				if j == w.Me || !w.Epochs[live].IsMember(j) {
+				if j == w.Epochs[live].Me || !w.Epochs[live].IsMember(j) {
 					continue
 				}
 				c.do(Event{Kind: "part", From: j, Claim: j, Round: cur + 1, Prev: "ref", Ep: live})
@@ -581,7 +624,7 @@ func genScenario(c *caseRun, rng *rand.Rand, steps int) {
 			// message, which is another one: it must not count, nor get in the way)
 			if rng.Intn(4) == 0 {
 				for j := 0; j < n; j++ {
-					if j != w.Me && w.Epochs[live].IsMember(j) {
+					if j != w.Epochs[live].Me && w.Epochs[live].IsMember(j) {
 						c.do(Event{Kind: "part", From: j, Claim: j, Round: w.Head() + 1, Prev: "refx", Ep: live})
 						break
 					}
@@ -589,7 +632,7 @@ func genScenario(c *caseRun, rng *rand.Rand, steps int) {
 			}
 			cnt := 0
 			for j := 0; j < n && cnt < w.Epochs[live].Thr; j++ {
-				if j == w.Me || !w.Epochs[live].IsMember(j) {
+				if j == w.Epochs[live].Me || !w.Epochs[live].IsMember(j) {
 					continue
 				}
 				c.do(Event{Kind: "part", From: j, Claim: j, Round: w.Head() + 1, Prev: "ref", Ep: live})
@@ -667,6 +710,9 @@ func Run(out string, seed int64, tier string) error {
 				rep.Count("emission")
 			}
 			kinds[fmt.Sprintf("%s|%d|%s|%s|%d|%d|%v", s.ev.Kind, s.ev.Round-c.w.Head(), s.ev.Prev, s.ev.Mut, s.ev.From, s.ev.Claim, s.obs.Rejected)] = true
+		}
+		for k := 0; k < c.ownCopies; k++ {
+			rep.Count("own-copy-after-index-moved")
 		}
 		rep.DistinctNontrivial += len(kinds)
 		if i < 2 {
